@@ -355,7 +355,37 @@ def c15_jobs(tier):
     return jobs
 
 
+def c17_jobs(tier):
+    q = tier == "quick"
+    jobs = []
+    junks = [0, 1, 7] if q else [0, 1, 7, 8, 63, 64, 65]
+    shapes = [[], [40]] if q else [[], [40], [33, 41], [48]]
+    for s in range(9):
+        for op in (0, 1, 2):
+            for role in (0, 1):
+                for j in junks:
+                    if q and (s + op + role + j) % 2 == 1:
+                        continue
+                    for sh in shapes:
+                        jobs.append(job(ROOT, "HReuseStep", [s, op, role, j] + sh + [0]))
+    for s in ([0, 4, 8] if q else range(9)):
+        for role in (0, 1):
+            for j in ([5] if q else [1, 5, 64]):
+                for n in ([32, 47, 48, 60, 64, 76, 80, 92, 96] if q else range(32, 113)):
+                    jobs.append(job(ROOT, "HReuseReject", [s, role, j, n, 40, 0]))
+    # key derivation from a used PRF object is C08's inductive step (junk in Prf_d); repeated here at one size
+    for p in range(3):
+        for j in (3, 64):
+            jobs.append(job(SEC, "HChildKeys", [p, 1, p, 16, j]))
+    return jobs
+
+
 PROPS = {
+    "C17": dict(jobs=c17_jobs, claim="Inductive step instead of exploring histories: the SA key object starts in an arbitrary reachable state (every keyed-hash object with arbitrary octets already written - the HMAC buffer is the objects' only state and any content is reachable through a previous rejected message; ciphers satisfying the representation invariant) and one operation - protect as either role, unprotect a genuine message, reject an arbitrary datagram with invalid ICV, derive Child SA keys - must give the result a fresh object gives (accepted by / accepting a fresh peer, payloads equal, forged still rejected and the cipher not reached, keys equal to the specification), and must re-establish the invariant, which covers operation sequences of any length; two-operation sequences are run explicitly as a cross-check.",
+                bounds=lambda t: "9 suites, both roles, junk lengths %s, messages of 0..1 payloads (thorough: also SA+Notify, EAP); rejected datagrams of %s octets" % (("{0,1,7}", "12 lengths in 0..96") if t == "quick" else ("{0,1,7,8,63,64,65}", "every length 0..112")),
+                outside="states of the cipher objects that violate the invariant (Iv / Padding set by the caller: these exported fields are a test hook of the library, not reachable through its operations)",
+                assumptions=CRYPTO_ASSUME),
+
     "C14": dict(jobs=c14_jobs, claim="For every EAP shape in the bound and all field values: the encoded packet is accepted by the strict reference parser (length = size, Success/Failure without data, 24-bit vendor id / 32-bit vendor type, AKA' attributes in whole words with word-count length, zero padding, exact bit length), the parser recovers the packet and the octets equal the reference encoder's; Unmarshal(Marshal(e)) == e; the setter refuses every wrong size 0..300 for the fixed-size attributes and a value read back through GetAttr - freshly set (after the caller's buffer is overwritten) and after a wire round trip - is exactly the value set, for every accepted size; two encodings of one message are identical under all explored map iteration orders; an oversize packet gives an error.",
                 bounds=lambda t: "methods Success/Failure, Identity, Notification, Nak, Expanded; AKA' attribute subsets of size %s; setter sizes %s for each of the 7 attributes; expanded data lengths around 65523" % (("<= 2", "0..40 and {63..65,127..129,251..257,300}") if t == "quick" else ("<= 7 (all 128)", "0..300")),
                 outside="KDF_INPUT values longer than 300 octets; map orders beyond those listed in the evidence for maps of more than 3 entries"),
